@@ -37,6 +37,14 @@ DIRECTED = [
     'int f(int n) { int[] p = [n, n]; if (n > 2) { return p[0]; } { int q[n + 1]; q[0] = 5; if (n == 1) { return q[0]; } } return 0; }\nempty @is_you(int a, int b) { write(f(a)); write(f(b)); int[] z = [1]; write(z[0]); write(f(a + b)); write(z[0]); }\n',
     'empty @is_you(int a, int b) {\n  int i = 0;\n  while (i < 5) {\n    i += 1;\n    bool[] m = [true, i > a, false];\n    { byte[] inner = [\'x\', \'y\']; if (i == b) { break; } write(inner); }\n    write(m[1]);\n  }\n  string[] ss = ["a", "bc"]; write(ss[1]);\n}\n',
     'empty !d(int c) { int[] big = [1, 2, 3, 4, 5, 6]; !truth_is_defeat(c > 1); write(big[5]); }\nempty @is_you(int a, int b) {\n  int[] keep = [7, 8];\n  try { int[] x = [a]; !d(a); write(x[0]); } stop { write("S"); int[] y = [b, b]; write(y[1]); }\n  try { !d(b); write("k"); } undo { write("U"); }\n  write(keep[1]); int[] after = [3]; write(after[0]);\n}\n',
+    # a try body that always leaves by break / continue / return and can only be defeated inside an expression, in a loop body owning arrays
+    'int !pick(int a, int i) { !truth_is_defeat(i < a); return i * 2; }\nempty @is_you(int a, int b) {\n  int i = 0; int found = 0 - 1;\n  while (i < 5) {\n    int seen[b + 1];\n'
+    '    try { int tmp[2]; tmp[0] = !pick(a, i); seen[0] = tmp[0]; found = seen[0]; break; } undo { i += 1; }\n  }\n  write(found); int[] z = [7]; write(z[0]);\n}\n',
+    'int !pick(int a, int i) { !truth_is_defeat(i < a); return i * 2; }\nint @scan(int a, int b) {\n  for (int i = 0; i < 6; i += 1) {\n    int[] own = [i, a, b]; byte pad[b + 2];\n'
+    '    try { int v = !pick(a, i) + own[0]; return v; } stop { write("s"); }\n  }\n  return 0 - 1;\n}\nempty @is_you(int a, int b) { write(@scan(a, b)); write(@scan(b, a)); int[] z = [9]; write(z[0]); }\n',
+    'bool !ok(int a, int i) { !truth_is_defeat(i == a); return i > 1; }\nempty @is_you(int a, int b) {\n  for (int i = 0; i < 5; i += 1) {\n    bool[] m = [true, false, true]; int d[i + 1];\n'
+    '    try { if (!ok(a, i)) { write("y"); } continue; } undo { write("u"); }\n    write(m[0]); d[0] = i;\n  }\n  int k = 0;\n  while (k < 4) { k += 1; string[] ss = ["p", "q"];\n'
+    '    try { m2(k); bool t = !ok(b, k); write(t); break; } stop { write("S"); } write(ss[0]); }\n  write(k);\n}\nempty m2(int k) { int[] loc = [k, k]; write(loc[1]); }\n',
 ]
 
 
